@@ -5,7 +5,12 @@ def run(ctx):
     st = [dict(variant="asan", name="c17", sources=["checks/c17_nonce.c", "harness/mx_wraps.c"], wraps=WRAPS, shards=vflib.NCPU, timeout=7200 if ctx.thorough else 1500)]
     rule = ("Each case = one scenario (version x suite x full/resumed/ticket/client-auth/0-RTT) driven through handshake (DTLS: with a timeout-forced retransmission of every flight), "
             "22 application sends of sizes 0..16384 in bursts without draining, a stream of 300 small records per direction, 0.5-RTT server writes before the client's Finished when early data was accepted, an error alert or closure alerts, while link-time wrappers feed every AEAD seal, CBC encryption and PRNG "
-            "output to the online monitor. distinct_nontrivial = distinct scenarios executed; the evidence stats give the numbers of seals / CBC records / keys observed.")
+            "output to the online monitor. Plus TLS 1.3 0-RTT corner scenarios (14 kinds x 3 suites): a client resuming with a ticket writes 1-3 early-data records, then (a) the server (secp256r1 only, client share x25519 only) answers the "
+            "ClientHello alone with HelloRetryRequest and the client, whose write key is still client_early_traffic, seals one more record before its Finished flight: the application's closure alert before / after ClientHello2 is sent, an alert answering "
+            "a ServerHello with another cipher suite, a plaintext Finished out of order, a corrupted protected record; or the handshake completes and data flows; (b) the server rejects the early data without HelloRetryRequest (ticket age off by 60 s) "
+            "or (c) accepts it, and the client closes / gets a corrupted protected record right after ServerHello, or the server closes after its flight, or the handshake completes. Clause added: the write sequence number of a write-secure endpoint never goes back while the write key stays the same. "
+            "distinct_nontrivial = distinct scenarios executed; the evidence stats give the numbers of seals / CBC records / keys observed.")
     return vflib.std_run(ctx, st, "exploration", rule,
         ["observation is at the crypto-library boundary (link-time --wrap); the TLS 1.3 ticket code's internal psAesReadyGCM call is observed through psAesReadyGCMRandomIV",
-         "HelloRetryRequest flights are not generated by this workload"], min_nontrivial=40)
+         "after a HelloRetryRequest the client's early-data records are withheld from the server (this server answers them with unexpected_message)",
+         "a sequence restart is accepted whenever the key of the write context changed between two API calls"], min_nontrivial=40)
